@@ -218,14 +218,49 @@ pub fn apply_op(g: &mut Value, op: &MutOp) -> bool {
 }
 
 /// One rule-directed mutation proposal (typed by JSON key), as an explicit op.
-fn propose(g: &Value, donor: &Value, donor2: &Value, r: &mut Sm) -> Option<MutOp> {
+fn propose(g: &Value, donor: &Value, donor2: &Value, vocab: &[String], r: &mut Sm) -> Option<MutOp> {
     let mut ls = vec![];
     leaves(&g["fields"], vec!["fields".into()], &mut ls);
     if ls.is_empty() {
         return None;
     }
     let s = |x: &&str| Value::String(x.to_string());
-    match r.below(14) {
+    match r.below(16) {
+        14 | 15 => {
+            // a key the type accepts but the draw does not carry, filled with a field object of the
+            // draw (as is, wrapped in a list, or twice with a changed currency in the second copy)
+            let have: Vec<&String> = g["fields"].as_object().map(|o| o.keys().collect()).unwrap_or_default();
+            let missing: Vec<&String> = vocab.iter().filter(|k| !have.contains(k)).collect();
+            if missing.is_empty() {
+                return None;
+            }
+            let key = missing[r.below(missing.len())].clone();
+            let pool: Vec<Value> = g["fields"].as_object().map(|o| o.iter().filter(|(k, _)| *k != "#").map(|(_, v)| v.clone()).collect::<Vec<_>>()).unwrap_or_default().into_iter().chain(donor.get("fields").and_then(|f| f.as_object()).map(|o| o.values().cloned().collect::<Vec<_>>()).unwrap_or_default()).collect();
+            if pool.is_empty() {
+                return None;
+            }
+            let v = pool[r.below(pool.len())].clone();
+            let v = if let Value::Array(a) = &v { a.first().cloned().unwrap_or(v) } else { v };
+            let mut v2 = v.clone();
+            if let Some(c) = v2.get_mut("currency") {
+                *c = s(r.pick(CUR));
+            }
+            let value = match r.below(4) {
+                0 => v,
+                1 => Value::Array(vec![v]),
+                2 => Value::Array(vec![v, v2]),
+                _ => Value::Array(vec![v2.clone(), v, v2]),
+            };
+            if r.chance(1, 4) {
+                if let Some(Value::Array(a)) = g["fields"].get("#") {
+                    if !a.is_empty() {
+                        let i = r.below(a.len());
+                        return Some(MutOp::Put { path: vec!["fields".into(), "#".into(), i.to_string()], key, value });
+                    }
+                }
+            }
+            Some(MutOp::Put { path: vec!["fields".into()], key, value })
+        }
         13 => {
             let cand: Vec<_> = ls.iter().filter(|(p, _)| p.last().is_some_and(|k| k.parse::<usize>().is_ok())).collect();
             if cand.is_empty() {
@@ -901,6 +936,7 @@ impl Engine for C13 {
         let ctx2 = ctx.clone();
         let spec2 = spec.clone();
         let o2 = out.clone();
+        let vocabs: Vec<Vec<String>> = scs.iter().map(|(sc, _, _)| env.vocab.get(&sc.mt).cloned().unwrap_or_default()).collect();
         let res = on_fresh_thread(move || {
             let mut out = o2;
             let _a = seam::attach(&ctx2);
@@ -943,7 +979,7 @@ impl Engine for C13 {
                             if cur >= *target {
                                 break;
                             }
-                            let Some(op) = propose(&g, &donor, &donor2, &mut r) else { continue };
+                            let Some(op) = propose(&g, &donor, &donor2, &vocabs[k], &mut r) else { continue };
                             let saved = g.clone();
                             if !apply_op(&mut g, &op) || g == saved {
                                 g = saved;
